@@ -131,6 +131,17 @@ func alterWare(c *Ctx, stored []byte, mut string, other []byte) []byte {
 		}
 		tw.Close()
 		return append(gz(body), gz(m2.Bytes())...)
+	case "addlink": // a link name written into the header of a regular file (or directory) entry: same length, still parses
+		return gz(retar(raw, func(hs []*tar.Header, bs [][]byte) ([]*tar.Header, [][]byte) {
+			for i := range hs {
+				j := (i + arg(1)) % len(hs)
+				if hs[j].Typeflag == tar.TypeReg || hs[j].Typeflag == tar.TypeDir {
+					hs[j].Linkname = "/etc/shadow"
+					return hs, bs
+				}
+			}
+			return hs, bs
+		}))
 	case "adddir": // an explicit entry for an already described directory, with other attributes
 		return gz(retar(raw, func(hs []*tar.Header, bs [][]byte) ([]*tar.Header, [][]byte) {
 			h := *hs[0]
@@ -447,7 +458,7 @@ func fetchEngine(c *Ctx) {
 	if c.Tier == "thorough" {
 		n = 150
 	}
-	muts := []string{"none", "recompress", "plain", "pad:2", "reorder", "flip", "flip", "flip", "trunc", "trunc", "truncgz", "substitute", "dropentry", "addentry", "twomember", "twomember-same", "adddir", "modattr", "modattr", "modcontent"}
+	muts := []string{"none", "recompress", "plain", "pad:2", "reorder", "flip", "flip", "flip", "trunc", "trunc", "truncgz", "substitute", "dropentry", "addentry", "addlink", "twomember", "twomember-same", "adddir", "modattr", "modattr", "modcontent"}
 	modes := []string{"direct", "copy", "none", "mount"}
 	for k := 0; k < n; k++ {
 		fsx := c.GenFileset(GenOpts{MaxEntries: 7, Kinds: "fffdLp", SubSecond: false, BigIds: false, Setid: false, MaxContent: 1500})
@@ -465,6 +476,8 @@ func fetchEngine(c *Ctx) {
 				mut = fmt.Sprintf("modattr:%d:%d", c.Intn(50), c.Intn(4))
 			case "dropentry":
 				mut = fmt.Sprintf("dropentry:%d", c.Intn(50))
+			case "addlink":
+				mut = fmt.Sprintf("addlink:%d", c.Intn(50))
 			}
 			mode := modes[c.Intn(4)]
 			if c.Chance(1, 3) {
